@@ -18,7 +18,8 @@ TRUST = ("Trusted base: go/types, go/ssa and callgraph/vta of golang.org/x/tools
          "Before the rules run the tree is normalised against the reference inventory (checker/inventory.txt, checker/refsrc): renamed functions/fields/constants are resolved, "
          "functions that are new are expanded in place at their call sites, and an anchored function that was inlined and deleted is put back when the callers prove canonically equal "
          "to their reference text with it expanded (DESIGN.md 10.6); what was done is written to the evidence notes. The thorough tier also re-runs the rules under linux/386, darwin/arm64 "
-         "and -tags tools, on the seeded-variant corpus (must be reported) and on behaviour-preserving refactorings and syntactic rewrites (must stay silent). ")
+         "and -tags tools, on the seeded-variant corpus (must be reported) and on behaviour-preserving refactorings and syntactic rewrites (must stay silent), and on the single-site mutants of the mutation campaigns that the tests do not notice (must be reported). "
+         "Every check also evaluates <id>.RE (no failure is turned into success in the module functions reachable from the property's entry points) and the rules it borrows from the properties it depends on (DESIGN.md 10.8, 10.9). ")
 checks = []
 for i in ids:
     if i not in claimed:
